@@ -602,6 +602,8 @@ def ieee_range(rec):
     import chi as real
     cases = [(cls, outlier, pad) for cls in ('GaussianKDEFilter', 'LogNormalKDEFilter', 'GaussianMixtureFilter') for outlier in (None, 'mild', 'extreme') for pad in (False, True)]
     cases += [(cls, offset, pad) for cls in ('GaussianFilter', 'GaussianKDEFilter', 'GaussianMixtureFilter') for offset in (float(2 ** 20), float(2 ** 24)) for pad in (False, True)]
+    cases += [(cls, 'tiny-unit', pad) for cls in ('GaussianFilter', 'GaussianKDEFilter', 'GaussianMixtureFilter') for pad in (False, True)]
+    cases += [(cls, 'large', False) for cls in ('GaussianKDEFilter', 'LogNormalKDEFilter')]
 
     def one(case):
         cls, outlier, pad = case
@@ -615,6 +617,27 @@ def ieee_range(rec):
         if pad:
             y = np.concatenate([y, np.full((1, 1, 3), np.nan)], axis=0)
             y[0, 0, 0] = np.nan
+        if outlier == 'tiny-unit':
+            # the same data expressed in a unit that makes the numbers tiny (nanomolar concentrations in mol / L): the estimators carry the unit of
+            # the observable, so nothing in them may be absolute
+            x = 1.0e-9 * (5.0 + 0.05 * rng.normal(size=(8, 2, 3)))
+            y = 1.0e-9 * (5.0 + 0.05 * rng.normal(size=(4, 2, 3)))
+            if pad:
+                y = np.concatenate([y, np.full((1, 2, 3), np.nan)], axis=0)
+                y[0, 0, 0] = np.nan
+        if outlier == 'large':
+            # a large study (n_sim x n_times x n_ids above 2^22 kernel evaluations): the value is a sum over the measured individuals, so the
+            # value of the whole dataset is the sum of the values of its two halves (each half is small enough for any blocking to be trivial)
+            n_ids_big = 900
+            xb = 5.0 + 0.5 * rng.normal(size=(1024, 1, 5))
+            yb = 5.0 + 0.5 * rng.normal(size=(n_ids_big, 1, 5))
+            if cls.startswith('LogNormal'):
+                xb, yb = np.exp(0.2 * (xb - 5.0)), np.exp(0.2 * (yb - 5.0))
+            whole = float(make_filter(real, cls, yb).compute_log_likelihood(xb))
+            halves = float(make_filter(real, cls, yb[:450]).compute_log_likelihood(xb)) + float(make_filter(real, cls, yb[450:]).compute_log_likelihood(xb))
+            if not (np.isfinite(whole) and abs(whole - halves) <= 1e-8 * abs(halves)):
+                return '%s, 1024 simulated x 5 times x 900 measured individuals: log-likelihood %r, the two halves of the individuals give %r + ... = %r (the value is a sum over individuals)' % (cls, whole, halves, halves)
+            return None
         if isinstance(outlier, float):
             # simulated and measured values on a large common offset (the documented estimators -- mean, ddof=1 variance -- are well conditioned
             # there; a variance computed from raw moments cancels catastrophically): value and sensitivities against the documented estimator
